@@ -13,6 +13,15 @@ type's hook is the identity when unstructuring.
 
 Correspondence: the Lean heap model's ALIAS / ALIAS-TAGGED prediction (ok/err, changed bit, alias
 set, root alias, result value) == the implementation's.
+
+Implementation-only additions (same oracle, inputs outside the Lean fragment; helpers in c11_maps.py):
+  * "missing twins": a share of the structure cases of every stream is re-run with the payload's dicts rebuilt as
+    instances of dict subclasses with a side-effecting `__missing__` (defaultdict, memoising dict), whenever every
+    key the type REQUIRES is present (or the plain run succeeded): a hook must look optional keys up without
+    subscripting them.  Recorded finding F68 (BaseConverter.structure_attrs_fromdict subscripts every attribute);
+  * `stream_mapclasses`: mapping target classes that WRAP their argument (ChainMap, MappingProxyType, user views),
+    user mapping classes generic in one / two / no parameters, payloads of dict subclasses; the result is walked
+    through references of every kind (gc.get_referents), so that a wrapper around the payload counts as sharing it.
 """
 from __future__ import annotations
 
@@ -22,6 +31,7 @@ import os
 import sys
 
 from harness import framework, gen, lean, streams, terms
+from harness.props import c11_maps
 from harness.datapath import ALL_CFGS, Session, cfg_name, make_converter
 from harness.realise import Opaque, Unrepresentable
 
@@ -121,6 +131,22 @@ def reach_ids(S, o, acc=None):
 
 def subtree_ids(S, o):
     return reach_ids(S, o)
+
+
+def dict_keys(S, o):
+    """id -> (dict, set of its keys) for every dict reachable from the argument"""
+    out = {}
+
+    def go(x):
+        if not is_container(x) or id(x) in out:
+            return
+        if isinstance(x, dict):
+            out[id(x)] = (x, set(dict.keys(x)))
+        for c in children(S, x):
+            go(c)
+
+    go(o)
+    return out
 
 
 # ------------------------------------------------------------------ the documented pass-throughs
@@ -320,13 +346,16 @@ def allowed_un(S, cfg, ty, o, ovr, extras):
 # ------------------------------------------------------------------ one observed call
 
 class Obs:
-    __slots__ = ("outcome", "changed", "alias", "root", "value", "bad", "bad_extras_only", "n_arg", "res")
+    __slots__ = ("outcome", "changed", "alias", "root", "value", "bad", "bad_extras_only", "n_arg", "res", "inserted")
 
 
-def observe(S, call, arg, allowed_fn):
-    """run call(arg) with snapshot + identity tracking; allowed_fn(extras) -> allowed ids"""
+def observe(S, call, arg, allowed_fn, deep=False):
+    """run call(arg) with snapshot + identity tracking; allowed_fn(extras) -> allowed ids.
+    deep: the result is walked through references of every kind (wrappers, views, user classes), not only through
+    the containers the model knows"""
     ids, n_cells = number(S, arg)
     before = snapshot(S, arg)
+    keys_before = dict_keys(S, arg)
     try:
         res = call(arg)
         ok = True
@@ -338,14 +367,19 @@ def observe(S, call, arg, allowed_fn):
     o.res = res
     o.outcome = "ok" if ok else "err"
     o.changed = snapshot(S, arg) != before
+    o.inserted = []
+    if o.changed:
+        # keys that appeared in dicts of the argument (payload dicts with a side-effecting `__missing__`)
+        for i, (dct, ks) in keys_before.items():
+            o.inserted += sorted(repr(k) for k in dict.keys(dct) if k not in ks)
     o.alias, o.root, o.value, o.bad, o.bad_extras_only = [], None, None, [], False
     if ok:
-        rids = reach_ids(S, res)
+        rids = c11_maps.deep_ids(res) if deep else reach_ids(S, res)
         shared = rids & set(ids)
         o.alias = sorted(ids[i] for i in shared)
         o.root = ids.get(id(res)) if is_mutable(res) else None
         try:
-            o.value = canon_unordered(S.R.abs(res))
+            o.value = None if deep else canon_unordered(S.R.abs(res))
         except Unrepresentable:
             o.value = None
         extras = set()
@@ -434,6 +468,21 @@ def judge(chk, drv, obs, line, case, what, stats, corr_fail):
                                           "root": obs.root, "value": obs.value}, "model": m}, case))
 
 
+@framework.finding("interpretive-optional-attribute-subscripted")
+def _f68(case):
+    """BaseConverter.structure_attrs_fromdict reads EVERY attribute with `obj[a.name]` / `except KeyError`: a payload
+    dict with a side-effecting `__missing__` gets the names of absent, defaulted attributes inserted.  Exactly: the
+    argument was modified, BaseConverter + dict strategy, the payload dicts have `__missing__`, and every inserted key
+    is the name of an init attribute that has a default, of an attrs class / dataclass of the world."""
+    cfg = case.get("cfg") or {}
+    if not (case.get("kind") == "mutated" and case.get("dress") in c11_maps.MISSING_DRESSES
+            and cfg.get("gen") is False and cfg.get("tuple") is False and case.get("inserted_keys")):
+        return False
+    optional = {repr(f["name"]) for c in case["world"]["classes"] if c["kind"] in ("attrs", "dc")
+                for f in c["fields"] if f["init"] and f["dflt"] is not None}
+    return all(k in optional for k in case["inserted_keys"])
+
+
 @framework.finding("typeddict-extra-key-aliased")
 def _f34(case):
     return case.get("kind") == "alias" and case.get("all_offending_under_td_extra_key") is True
@@ -484,15 +533,79 @@ def union_of(S, members):
 Session.union_of = union_of
 
 
+TWIN_P = 0.3      # share of the structure cases re-run with `__missing__` payload dicts (oracle only)
+
+
+def required_present(S, cfg, ty, o, ovr, depth=0):
+    """Does the payload hold, at every mapping position the type gives a class / TypedDict, all the keys that class
+    REQUIRES?  (A hook may legitimately subscript a required key; a dict subclass with `__missing__` then answers for
+    itself.  Every other key must be looked up without side effects.)  Conservative: False where it cannot tell."""
+    w = S.world
+    if ty is None or isinstance(ty, str) or depth > 30:
+        return True
+    k = ty[0]
+    if k in ("enum", "lit"):
+        return True
+    if k in ("list", "seq", "mseq", "tup*", "deque", "set", "mset", "fset"):
+        return all(required_present(S, cfg, ty[1], e, ovr, depth + 1) for e in items_of(o) or [])
+    if k == "tup":
+        return all(required_present(S, cfg, t, e, ovr, depth + 1) for t, e in zip(ty[1], items_of(o) or []))
+    if k == "nt":
+        return all(required_present(S, cfg, f["ty"], e, ovr, depth + 1)
+                   for f, e in zip(w["classes"][ty[1]]["fields"], items_of(o) or []))
+    if k in ("dict", "map", "mmap"):
+        if not isinstance(o, dict):
+            return True
+        return all(required_present(S, cfg, ty[1], a, ovr, depth + 1) and required_present(S, cfg, ty[2], b, ovr, depth + 1)
+                   for a, b in o.items())
+    if k in ("opt", "new", "ann", "final", "alias"):
+        return o is None or required_present(S, cfg, ty[1], o, ovr, depth + 1)
+    if k == "cls":
+        fields = w["classes"][ty[1]]["fields"]
+        if cfg["tuple"]:
+            return all(required_present(S, cfg, f["ty"], e, ovr, depth + 1) for f, e in zip(fields, items_of(o) or []))
+        if not isinstance(o, dict):
+            return True
+        for f in fields:
+            if not f["init"]:
+                continue
+            if f["name"] in o:
+                if not required_present(S, cfg, f["ty"], o[f["name"]], ovr, depth + 1):
+                    return False
+            elif f["dflt"] is None:
+                return False
+        return True
+    if k == "td":
+        if not isinstance(o, dict):
+            return True
+        for f, key, omit in td_keys(w, ty[1], ovr):
+            if omit:
+                continue
+            if key in o:
+                if not required_present(S, cfg, f["ty"], o[key], ovr, depth + 1):
+                    return False
+            elif f.get("required", True):
+                return False
+        return True
+    return False      # class unions: the decision function's own reads are not second-guessed here
+
+
 def do_case(chk, drv, S, spec, stats, corr_fail, cache, arg=None):
-    """run one case on the implementation and on the model; returns the Obs"""
+    """run one case on the implementation and on the model; returns the Obs.
+    spec["dress"] (a payload dict class of c11_maps.DRESSES): the payload's dicts are instances of that class; such a
+    case is outside the Lean fragment -- the oracle alone judges it."""
     w = S.world
     cfg, d, ty = spec["cfg"], spec["dir"], spec.get("ty")
     ovr = ovr_dict(spec)
     conv = build_converter(S, spec, cache)
+    dressed = spec.get("dress")
     if arg is None:
         arg = S.R.val(spec["arg"])
-    arg_abs = S.R.abs(arg)
+    if dressed:
+        arg = c11_maps.dress(arg, dressed)
+        arg_abs = terms.tuple_ify(spec["arg"]) if not isinstance(spec["arg"], tuple) else spec["arg"]
+    else:
+        arg_abs = S.R.abs(arg)
     if spec["mode"] == "tagged":
         tg = spec["tagged"]
         union = S.union_of(tg["members"])
@@ -530,14 +643,49 @@ def do_case(chk, drv, S, spec, stats, corr_fail, cache, arg=None):
         tyname = terms.ty_sx(ty) + ("" if (spec.get("spell") or "param") == "param" else "/bare-" + spec["spell"])
     obs = observe(S, call, arg, allowed_fn)
     what = f"{spec['mode']} {d} {cfg_name(cfg)} {tyname} arg={terms.canon_sx(arg_abs)[:300]}"
+    if dressed:
+        what += " payload-dicts=" + dressed
     case = dict(spec, world=w, arg=arg_abs)
     key = what
     chk.count(key, nontrivial=obs.n_arg > 0,
               sample={"mode": spec["mode"], "dir": d, "cfg": cfg_name(cfg), "type": tyname,
                       "arg": terms.canon_sx(arg_abs)[:200], "outcome": obs.outcome, "alias": obs.alias})
     chk.note("mode:" + spec["mode"], "dir:" + d, "cfg:" + cfg_name(cfg))
+    if dressed:
+        judge_oracle(chk, obs, case, what, stats, "missing-twin")
+        return obs, call
     judge(chk, drv, obs, line, case, what, stats, corr_fail)
+    # the same payload with dicts that have a side-effecting `__missing__` (implementation-only twin)
+    trng = twin_rng(chk)
+    if (d == "st" and not spec.get("frame_only") and c11_maps.has_dict(arg_abs) and trng.random() < TWIN_P
+            and (obs.outcome == "ok" or (spec["mode"] != "tagged" and required_present(S, cfg, ty, arg, ovr)))):
+        kind = trng.choice(c11_maps.MISSING_DRESSES)
+        chk.note("payload-dicts:" + kind, "missing-twin:plain-outcome-" + obs.outcome)
+        do_case(chk, drv, S, dict(spec, dress=kind, arg=arg_abs), stats, corr_fail, cache)
     return obs, call
+
+
+def twin_rng(chk):
+    """a generator of its own for the twins (seeded from the run's seed): the cases of the modelled streams are the
+    same with and without them"""
+    if not hasattr(chk, "_twin_rng"):
+        import random
+        chk._twin_rng = random.Random("c11-twin-%s-%s" % (chk.seed, chk.tier))
+    return chk._twin_rng
+
+
+def judge_oracle(chk, obs, case, what, stats, label):
+    """the oracle alone (inputs outside the Lean fragment): never modified; no sharing outside the pass-throughs"""
+    chk.note(label + ":outcome:" + obs.outcome)
+    stats[label + ":oracle-only"] += 1
+    if obs.changed:
+        chk.violation(f"C11 oracle: the argument was modified ({obs.outcome}; keys inserted: {obs.inserted}) [{what}]",
+                      dict(case, kind="mutated", inserted_keys=obs.inserted))
+    elif obs.bad:
+        chk.violation(
+            f"C11 oracle: the result shares argument container(s) {obs.bad} outside the documented "
+            f"pass-through positions [{what}]",
+            dict(case, kind="alias", offending=obs.bad, all_offending_under_td_extra_key=obs.bad_extras_only))
 
 
 # ------------------------------------------------------------------ case streams
@@ -909,6 +1057,179 @@ def stream_sameclass(chk, drv, stats, corr_fail, n_worlds):
                         chk.note("value-not-realisable")
 
 
+# ------------------------------------------------------------------ mapping classes other than dict (implementation only)
+# Same oracle, inputs outside the Lean fragment: mapping TARGET classes that wrap the mapping they are given
+# (ChainMap, MappingProxyType, user views), user mapping classes generic in one / both / no parameters, payload dicts
+# of dict subclasses.  A type here is an abstract type with mapping nodes ("xmap", class name, spelling, K, V): the
+# oracle judges it as the ("dict", K, V) it denotes -- `structure(p, ChainMap)` must build a new container just as
+# `structure(p, dict)` must, and `unstructure(Index(..), Index[str])` must rebuild the values as `Dict[str, Any]` does.
+
+XK = ["any", "str", "int"]
+XV = ["any", "any", "int", ("list", "any"), ("dict", "str", "any"), ("list", "int"), ("set", "any")]
+
+
+def x_from_json(t):
+    """JSON turns tuples into lists; restore the shape of an extended type"""
+    if isinstance(t, str):
+        return t
+    if t[0] == "tup":
+        return ("tup", [x_from_json(x) for x in t[1]])
+    if t[0] == "xmap":
+        return ("xmap", t[1], t[2], x_from_json(t[3]), x_from_json(t[4]))
+    return (t[0],) + tuple(x_from_json(x) for x in t[1:])
+
+
+def x_core(t):
+    """the abstract type an extended type denotes"""
+    if isinstance(t, str):
+        return t
+    if t[0] == "xmap":
+        return ("dict", x_core(t[3]), x_core(t[4]))
+    if t[0] == "tup":
+        return ("tup", [x_core(x) for x in t[1]])
+    return (t[0],) + tuple(x_core(x) for x in t[1:])
+
+
+def x_py(S, t):
+    """the Python type"""
+    if isinstance(t, str):
+        return S.R.ty(t)
+    k = t[0]
+    if k == "xmap":
+        return c11_maps.map_type(t[1], t[2], x_py(S, t[3]), x_py(S, t[4]))
+    if k in ONE:
+        return ONE[k](x_py(S, t[1]))
+    if k in TWO:
+        return TWO[k](x_py(S, t[1]), x_py(S, t[2]))
+    if k == "tup":
+        return tuple[tuple(x_py(S, x) for x in t[1])]
+    return S.R.ty(t)
+
+
+def x_val(S, t, v):
+    """a VALUE of the extended type from a realised value of the core type: the dict at an xmap node becomes an
+    instance of the node's class"""
+    if isinstance(t, str) or v is None:
+        return v
+    k = t[0]
+    if k == "xmap":
+        if not isinstance(v, dict):
+            return v
+        return c11_maps.make_instance(t[1], {a: x_val(S, t[4], b) for a, b in v.items()})
+    if k in ("list", "seq", "mseq", "tup*", "deque") and isinstance(v, (list, tuple, collections.deque)):
+        return v.__class__(x_val(S, t[1], e) for e in v)
+    if k == "opt":
+        return x_val(S, t[1], v)
+    if k in TWO and isinstance(v, dict):
+        return {a: x_val(S, t[2], b) for a, b in v.items()}
+    if k == "tup" and isinstance(v, tuple):
+        return tuple(x_val(S, a, e) for a, e in zip(t[1], v))
+    return v
+
+
+def x_name(t):
+    if isinstance(t, str):
+        return t
+    if t[0] == "xmap":
+        return "(%s/%s %s %s)" % (t[1], t[2], x_name(t[3]), x_name(t[4]))
+    if t[0] == "tup":
+        return "(tup " + " ".join(x_name(x) for x in t[1]) + ")"
+    return "(" + " ".join([t[0]] + [x_name(x) for x in t[1:]]) + ")"
+
+
+def x_types(rng):
+    """mapping-class nodes at top level and nested"""
+    out = []
+    for name in c11_maps.MAP_CLASSES:
+        for _ in range(2):
+            spell = rng.choice(c11_maps.spellings(name))
+            n_par = c11_maps.MAP_CLASSES[name][2]
+            if spell == "param":
+                kt = rng.choice(XK)
+                vt = "any" if n_par == 1 else rng.choice(XV)
+            else:
+                kt = vt = "any"
+            node = ("xmap", name, spell, kt, vt)
+            c = rng.random()
+            if c < 0.6:
+                out.append(node)
+            else:
+                out.append(rng.choice([("list", node), ("opt", node), ("dict", "str", node), ("tup", [node, "int"]),
+                                       ("tup*", node), ("map", "int", ("list", node))]))
+    return out
+
+
+def do_xcase(chk, S, spec, stats, cache):
+    """one call on the implementation, judged by the oracle alone"""
+    cfg, d, xt = spec["cfg"], spec["dir"], x_from_json(spec["xty"])
+    core = x_core(xt)
+    conv = S.conv(cfg)
+    rty = x_py(S, xt)
+    arg = S.R.val(spec["arg"])
+    if d == "un":
+        arg = x_val(S, xt, arg)
+        call = lambda a: conv.unstructure(a, unstructure_as=rty)  # noqa: E731
+        allowed_fn = lambda extras: allowed_un(S, cfg, core, arg, None, extras)  # noqa: E731
+    else:
+        if spec.get("dress"):
+            arg = c11_maps.dress(arg, spec["dress"])
+        call = lambda a: conv.structure(a, rty)  # noqa: E731
+        allowed_fn = lambda extras: allowed_st(S, cfg, core, arg, None, extras)  # noqa: E731
+    obs = observe(S, call, arg, allowed_fn, deep=True)
+    what = "mapclass %s %s %s arg=%s%s" % (d, cfg_name(cfg), x_name(xt), terms.canon_sx(spec["arg"])[:300],
+                                          " payload-dicts=" + spec["dress"] if spec.get("dress") else "")
+    chk.count(what, nontrivial=obs.n_arg > 0,
+              sample={"mode": "mapclass", "dir": d, "cfg": cfg_name(cfg), "type": x_name(xt),
+                      "arg": terms.canon_sx(spec["arg"])[:200], "outcome": obs.outcome, "alias": obs.alias})
+    chk.note("mode:mapclass", "dir:" + d, "cfg:" + cfg_name(cfg))
+    judge_oracle(chk, obs, dict(spec, world=S.world), what, stats, "mapclass")
+    return obs
+
+
+def stream_mapclasses(chk, drv, stats, n_worlds):
+    rng = chk.rng
+    made = 0
+    while made < n_worlds:
+        w = sc_world(rng)
+        try:
+            S = Session(drv, w)
+        except Exception:  # noqa: BLE001
+            chk.note("world-rejected-by-python")
+            continue
+        made += 1
+        for xt in x_types(rng):
+            node = [x for x in _x_walk(xt) if not isinstance(x, str) and x[0] == "xmap"][0]
+            name = node[1]
+            wraps, is_dict = c11_maps.MAP_CLASSES[name][3], c11_maps.MAP_CLASSES[name][4]
+            chk.note("mapclass:" + name, "mapclass-spelling:" + node[2], "mapclass-position:" + ("top" if xt is node else "nested"))
+            core = x_core(xt)
+            for cfg in rng.sample(ALL_CFGS, 3):
+                for d in ("st", "un"):
+                    if d == "un" and not is_dict:
+                        continue      # (values of the wrapping classes are not containers the numbering knows)
+                    x = sc_value(rng, w, core, 3, same=1.0)
+                    if gen.lookalike_hazard(x):
+                        continue
+                    spec = {"mode": "mapclass", "cfg": cfg, "dir": d, "xty": xt, "arg": x}
+                    if d == "st" and rng.random() < 0.4:
+                        spec["dress"] = rng.choice(sorted(c11_maps.DRESSES))
+                        chk.note("payload-dicts:" + spec["dress"])
+                    try:
+                        do_xcase(chk, S, spec, stats, None)
+                    except Unrepresentable:
+                        chk.note("value-not-realisable")
+
+
+def _x_walk(t):
+    """the extended type and its sub-types"""
+    yield t
+    if isinstance(t, str):
+        return
+    subs = t[1] if t[0] == "tup" else (t[3:] if t[0] == "xmap" else t[1:])
+    for x in subs:
+        yield from _x_walk(x)
+
+
 # ------------------------------------------------------------------ entry points
 
 def run(chk: framework.Check):
@@ -920,6 +1241,7 @@ def run(chk: framework.Check):
     stream_td(chk, drv, stats, corr_fail, 150 if quick else 1500)
     stream_tagged(chk, drv, stats, corr_fail, 90 if quick else 900)
     stream_sameclass(chk, drv, stats, corr_fail, 40 if quick else 400)
+    stream_mapclasses(chk, drv, stats, 25 if quick else 250)
     # the witness of finding F34 must keep reproducing (else the entry is stale)
     n_f34 = chk.known_hits.get("F34", 0)
     chk.extra["finding_F34_reproduced"] = n_f34
@@ -935,7 +1257,8 @@ def run(chk: framework.Check):
     chk.extra["correspondence_mismatches"] = len(corr_fail)
     chk.extra["rule"] = ("random worlds x types x converter configurations x {valid value -> unstructure; valid / mutated / "
                          "junk payload -> structure}, TypedDict hooks with rename/omit overrides x forbid_extra_keys, "
-                         "tagged unions x default x forbid_extra_keys; non-trivial = the argument holds at least one "
+                         "tagged unions x default x forbid_extra_keys; + implementation-only: payload dicts with __missing__ "
+                         "(twins of the structure cases), mapping classes other than dict; non-trivial = the argument holds at least one "
                          "container; distinct by (mode, direction, configuration, type, canonical argument)")
     drv.close()
 
@@ -943,7 +1266,7 @@ def run(chk: framework.Check):
 def replay(case):
     drv = lean.Driver()
     case = terms.case_from_json(case)
-    spec = {k: case[k] for k in ("mode", "cfg", "dir", "ty", "ovr", "tagged", "spell", "frame_only") if k in case}
+    spec = {k: case[k] for k in ("mode", "cfg", "dir", "ty", "ovr", "tagged", "spell", "frame_only", "dress", "xty") if k in case}
     spec["arg"] = terms.tuple_ify(case["arg"])
     if spec.get("ty") is not None:
         spec["ty"] = terms.tuple_ify(spec["ty"])
@@ -951,11 +1274,17 @@ def replay(case):
     chk = framework.Check("C11", "replay", 0)
     chk.known = []
     corr = []
-    obs, _ = do_case(chk, drv, S, spec, collections.Counter(), corr, {})
+    if spec["mode"] == "mapclass":
+        obs = do_xcase(chk, S, spec, collections.Counter(), None)
+    else:
+        chk._twin_rng = type("NoTwin", (), {"random": staticmethod(lambda: 1.0)})()
+        obs, _ = do_case(chk, drv, S, spec, collections.Counter(), corr, {})
     print("mode/dir :", spec["mode"], spec["dir"], cfg_name(spec["cfg"]))
-    print("type     :", terms.ty_sx(spec["ty"]) if spec.get("ty") is not None else spec.get("tagged"))
-    print("argument :", terms.canon_sx(spec["arg"]))
-    print("impl     : outcome=%s changed=%s alias=%s root=%s value=%s" % (obs.outcome, obs.changed, obs.alias, obs.root, obs.value))
+    print("type     :", x_name(x_from_json(spec["xty"])) if spec.get("xty") is not None else
+          terms.ty_sx(spec["ty"]) if spec.get("ty") is not None else spec.get("tagged"))
+    print("argument :", terms.canon_sx(spec["arg"]), ("(payload dicts: %s)" % spec["dress"]) if spec.get("dress") else "")
+    print("impl     : outcome=%s changed=%s inserted-keys=%s alias=%s root=%s value=%s" % (
+        obs.outcome, obs.changed, obs.inserted, obs.alias, obs.root, obs.value))
     print("not allowed by the documented pass-throughs:", obs.bad, "(only under undeclared TypedDict keys)" if obs.bad_extras_only else "")
     for what, diff, _ in corr:
         print("model    :", diff["model"])
